@@ -1,28 +1,13 @@
+import RossModel.Spec.Frames
 import RossModel.Packet
 /-!
 # Fragmentation equals the chunk specification (C10); in-order reassembly returns the packet (C02)
 -/
 namespace Ross
 
-/-- independent fragmenter: chunk the payload. -/
-def chunks7 (l : List UInt8) : List (List UInt8) :=
-  if h : l = [] then [] else l.take 7 :: chunks7 (l.drop 7)
-termination_by l.length
-decreasing_by
-  cases l with
-  | nil => exact absurd rfl h
-  | cons a t => simp; omega
 
-def specFrames (p : Packet) : List Frame :=
-  if p.data.length ≤ 8 then
-    [{ notError := !p.isError, start := true, multi := false, idLast := true, fid := 0,
-       addr := p.addr, dataLen := p.data.length, data := pad8 p.data }]
-  else
-    let cs := chunks7 p.data
-    cs.mapIdx fun i c =>
-      let id := if i = 0 then cs.length - 1 else i
-      { notError := !p.isError, start := i == 0, multi := true, idLast := i == 0, fid := id,
-        addr := p.addr, dataLen := c.length + 1, data := pad8 (UInt8.ofNat id :: c) }
+
+
 
 theorem chunks7_eq (l : List UInt8) :
     chunks7 l = (List.range ((l.length + 6) / 7)).map fun i => (l.drop (i * 7)).take 7 := by
